@@ -15,7 +15,7 @@ from vf.ref import respformat
 ID = "C03"
 BOUNDS = {
     "quick": "18 requests x every {sync, awaitable} assignment of <=4 sites x every completion order of the awaitables (complete) x early-release deviations <=1; identity adversary: <=1 address reuse of a dead FieldDetails on all-awaitable and single-awaitable assignments",
-    "thorough": "early-release deviations <=2; <=2 address reuses",
+    "thorough": "early-release deviations <=3; <=3 address reuses (cap 400000 executions per assignment)",
 }
 RULE = (
     "stateless exploration of the real executor on a hand-stepped asyncio loop: every assignment of {sync, awaitable} to the gateable "
@@ -313,7 +313,7 @@ def run_request(req, mask, tier, res, only_choices=None, mode="sched"):
     sync_data, sync_paths, ref_data, want = sync_reference(req)
     nsites = len(sites)
     all_async = mask == (1 << nsites) - 1
-    bound = 1 if tier == "quick" else 2
+    bound = 1 if tier == "quick" else 3
     id_bound = 0
     if mode == "ident":
         id_bound = bound
